@@ -64,6 +64,45 @@ theorem C05_opConvert_all_or_nothing (c : Cfg) (i : ConvIn) (hp : c.pt ≥ c.sel
     · show convTotal c i > 0; omega
     · omega
 
+/-- **C05 (the ETX carries the gas that was paid for).** In the post-fork regime a successful ETX / CONVERT records an
+outbound transaction whose gas limit is exactly the gas-limit word the sender named and prepaid - the word fits 64 bits,
+nothing is truncated.  For the ETX opcode this holds in every regime. -/
+theorem C05_etx_gas_is_the_paid_gas (c : Cfg) (i : EtxIn) (h : (opETX c i).status = some 1) :
+    (opETX c i).etx = some (i.value, i.cacheLen, i.gasLimit) := by
+  unfold opETX at h ⊢
+  by_cases hf : etxFails c i = true
+  · simp [hf, fail] at h
+  · simp only [hf]
+    have hle : i.gasLimit ≤ maxU64 := by
+      simp only [etxFails, Bool.or_eq_true, decide_eq_true_eq, not_or, Bool.and_eq_true, Bool.not_eq_true'] at hf
+      by_cases hp : c.pt ≥ c.selfDestructFork
+      · have := hf.1.1.1.1.1.1.1.1.1.1.1.2; simp [hp] at this; omega
+      · have := hf.1.1.1.1.2; simp [hp] at this; omega
+    have : i.gasLimit % 2 ^ 64 = i.gasLimit := Nat.mod_eq_of_lt (by unfold maxU64 at hle; omega)
+    simp [this]
+
+theorem C05_convert_gas_is_the_paid_gas (c : Cfg) (i : ConvIn) (hp : c.pt ≥ c.selfDestructFork)
+    (h : (opConvert c i).status = some 1) : (opConvert c i).etx = some (i.value, i.cacheLen, i.gasLimit) := by
+  unfold opConvert at h ⊢
+  by_cases hf : convFails c i = true
+  · simp [hf, fail] at h
+  · simp only [hf]
+    have hle : i.gasLimit ≤ maxU64 := by
+      simp only [convFails, Bool.or_eq_true, decide_eq_true_eq, not_or, Bool.and_eq_true, Bool.not_eq_true'] at hf
+      have := hf.1.1.1.1.1.1.1.1.2; simp [hp] at this; omega
+    have : i.gasLimit % 2 ^ 64 = i.gasLimit := Nat.mod_eq_of_lt (by unfold maxU64 at hle; omega)
+    simp [this]
+
+/-- **Finding (legacy regime, CONVERT).** Before the fork the CONVERT opcode has no upper bound on the gas-limit word:
+a word of 2^64 + 21000 succeeds, the sender is charged for all of it and the outbound transaction carries 21000. -/
+theorem C05_counterexample_legacy_convert_gas_word :
+    let c : Cfg := { pt := 10, selfDestructFork := 100, controllerKickIn := 5, kawpowFork := 1000, shaFork := 2000, holdInterval := 10,
+                     txGas := 21000, etxGas := 21000, minConv := 50 }
+    let i : ConvIn := { toInScope := true, toQi := true, value := 60, gasLimit := 2 ^ 64 + 21000, gasPrice := 1,
+                        balance := 2 ^ 65, cacheLen := 0 }
+    (opConvert c i).status = some 1 ∧ (opConvert c i).debit = 60 + (2 ^ 64 + 21000) ∧ (opConvert c i).etx = some (60, 0, 21000) := by
+  decide
+
 /-- **C05 (plain call to an out-of-scope address).** debit = value exactly. -/
 theorem C05_createETX_all_or_nothing (c : Cfg) (i : CallIn) :
     ((createETX c i).status = some 1 ∧ (∃ g, (createETX c i).etx = some (i.value, i.cacheLen, g)) ∧ (createETX c i).debit = i.value ∧ i.value ≤ i.balance) ∨
